@@ -680,6 +680,7 @@ func run(c *vf.Ctx) {
 
 	e.lineAndHash(A, B)
 	e.external(alpha, A)
+	e.hardening(sA, D, kb, kc, texts, coreIdx)
 }
 
 // ---------------------------------------------------------------------------
